@@ -326,8 +326,19 @@ let enc_case (line : string) : string =
       let pages = Stdlib.List.map (function
         | Some p -> Some { DiskdumpSpec.dp_flags = n_of_int p.flags; dp_payload = p.payload }
         | None -> None) img in
-      let out = DiskdumpSpec.encode_dd (dd_layout c) pages in
-      Printf.sprintf "ok %d" (write_file (Stdlib.List.hd c.paths) out)
+      let l0 = dd_layout c in
+      (match (try Stdlib.List.assoc "splits" c.lay with Not_found -> "") with
+       | "" ->
+           let out = DiskdumpSpec.encode_dd l0 pages in
+           Printf.sprintf "ok %d" (write_file (Stdlib.List.hd c.paths) out)
+       | sp ->
+           (* one file per window "start-end", in the order of the paths *)
+           let wins = Stdlib.List.map (fun w -> match split_on '-' w with
+             | [a; b] -> (n_of_hex a, n_of_hex b) | _ -> failwith "bad window") (split_on '.' sp) in
+           let sizes = Stdlib.List.map2 (fun path (a, b) ->
+             let l = { l0 with DiskdumpSpec.dl_split = true; dl_start_pfn = a; dl_end_pfn = b } in
+             write_file path (DiskdumpSpec.encode_dd l pages)) c.paths wins in
+           "ok " ^ String.concat "," (Stdlib.List.map string_of_int sizes))
   | f -> failwith ("unknown format " ^ f)
 
 let spec_case (line : string) : string =
